@@ -446,23 +446,29 @@ def tailLits (t : Array Nat) (i : Nat) (toks : List Tok) : List Tok :=
 
 /-! ## The encoder loop (lines 431-556) -/
 
-/-- State: `i`, `pred_pos`, `no_prev_literals`, the tokens emitted so far (newest first), the number
-    of bytes emitted so far (`encoded.len()`), `x_prev`. `S` supplies the candidate positions for a
-    k-mer code. -/
+/-- `encoded.len()` for the tokens emitted so far (newest first). -/
+def encLen (mm : Nat) : List Tok → Nat
+  | [] => 0
+  | x :: xs => (serTok mm x).length + encLen mm xs
+
+/-- State: `i`, `pred_pos`, `no_prev_literals`, the tokens emitted so far (newest first), `x_prev`.
+    `S` supplies the candidate positions for a k-mer code. `e_size = encoded.len()` (512) is
+    recomputed from the tokens. The subtractions `i -= len_bck`, `pred_pos -= len_bck`,
+    `match_pos - len_bck` never truncate (`len_bck ≤ no_prev_literals ≤ i, pred_pos` and
+    `len_bck ≤ h_pos`, see `MatchOK`). -/
 def encLoop (S : UInt64 → List Nat) (mm : Nat) (hmm : lzHashingStep ≤ mm) (refP : Array Nat)
-    (refLen : Nat) (t : Array Nat) (i pred npl : Nat) (toks : List Tok) (esz : Nat)
+    (refLen : Nat) (t : Array Nat) (i pred npl : Nat) (toks : List Tok)
     (xprev : Option UInt64) : Option (List Tok) :=
   if hlt : i + keyLen mm < t.size then
     match nextCode xprev npl t i (keyLen mm) with
     | .oob => none
     | .invalid =>
       if hn : nrunLen t i ≥ lzMinNRunLen then
-        encLoop S mm hmm refP refLen t (i + nrunLen t i) pred 0 (.nrun (nrunLen t i) :: toks)
-          (esz + (serTok mm (.nrun (nrunLen t i))).length) none
+        encLoop S mm hmm refP refLen t (i + nrunLen t i) pred 0 (.nrun (nrunLen t i) :: toks) none
       else
         match t[i]? with
         | none => none
-        | some c => encLoop S mm hmm refP refLen t (i + 1) (pred + 1) (npl + 1) (.lit c :: toks) (esz + 1) none
+        | some c => encLoop S mm hmm refP refLen t (i + 1) (pred + 1) (npl + 1) (.lit c :: toks) none
     | .ok code =>
       match hf : findBest mm refP t code i npl (S code) with
       | .panic => none
@@ -470,19 +476,17 @@ def encLoop (S : UInt64 → List Nat) (mm : Nat) (hmm : lzHashingStep ≤ mm) (r
         match t[i]? with
         | none => none
         | some c =>
-          encLoop S mm hmm refP refLen t (i + 1) (pred + 1) (npl + 1) (.lit c :: toks) (esz + 1) (some code)
+          encLoop S mm hmm refP refLen t (i + 1) (pred + 1) (npl + 1) (.lit c :: toks) (some code)
       | .found mpos bck fwd =>
         -- 482-488: pop the literals covered by the backward extension
         let i' := i - bck
         let pred' := pred - bck
         let toks' := toks.drop bck
-        let esz' := esz - bck
         let total := bck + fwd
         let amp := mpos - bck
         let tok := Tok.mtch ((amp : Int) - (pred' : Int)) (matchLenField refLen t.size i' total mpos fwd)
-        let toks'' := rewriteBang refP amp pred' esz' toks'
-        encLoop S mm hmm refP refLen t (i' + total) (amp + total) 0 (tok :: toks'')
-          (esz' + (serTok mm tok).length) (some code)
+        let toks'' := rewriteBang refP amp pred' (encLen mm toks') toks'
+        encLoop S mm hmm refP refLen t (i' + total) (amp + total) 0 (tok :: toks'') (some code)
   else some (tailLits t i toks)
 termination_by t.size - i
 decreasing_by
@@ -498,7 +502,7 @@ def encodeToks (S : UInt64 → List Nat) (mm : Nat) (ref tgt : List Nat) : Optio
   if hmm : lzHashingStep ≤ mm then
     -- 405-418: `target.len() == reference_len && zip(target, reference).all(eq)`
     if tgt.length = ref.length ∧ (tgt.zip (padRef mm ref).toList).all (fun p => p.1 == p.2) then some []
-    else (encLoop S mm hmm (padRef mm ref) ref.length tgt.toArray 0 0 0 [] 0 none).map List.reverse
+    else (encLoop S mm hmm (padRef mm ref) ref.length tgt.toArray 0 0 0 [] none).map List.reverse
   else none
 
 def encode (S : UInt64 → List Nat) (mm : Nat) (ref tgt : List Nat) : Option (List Nat) :=
